@@ -157,6 +157,9 @@ def _plain(obj):
 
 
 def _trial_here(chk, prelude, sc, sig):
+    init = getattr(chk, "trial_init", None)
+    if init is not None:
+        init()      # e.g. a fresh companion process for this (still history-free) trial process
     for p in prelude:
         try:
             chk.run(p)
